@@ -5,7 +5,7 @@ from hypothesis import strategies as st
 
 from vlib.runner import Outcome, cut, CutError, close, maxrel
 from vlib import synth, ref, strategies as S
-from vlib.props.c01 import absorption_sigma_ref, RSUN
+from vlib.props.c01 import absorption_sigma_ref, zero_corner_ambiguous, RSUN
 
 ID = 'C02'
 TITLE = 'thermal emission integral'
@@ -100,6 +100,9 @@ def check(case):
     out.applies('shape')
     if spec.shape != (len(W.wn),) or tau.shape != (nl, len(W.wn)):
         out.fail('shape', 'spectrum %s tau %s' % (spec.shape, tau.shape))
+        return out
+    if zero_corner_ambiguous(W, m):
+        out.cls('ambiguous-zero-corner')
         return out
     dtau = layer_dtau(out, W, m)
     if not np.all(np.isfinite(dtau)):
